@@ -18,6 +18,8 @@ for d in sorted(glob.glob('/verif/seeded/*/')):
     status = m.get('status', '')
     if status.startswith('obsolete'):
         res = 'obsolete (see meta.json)'
+    elif status.startswith('not a violation'):
+        res = 'not a violation of the property as stated (see meta.json)'
     elif det:
         res = 'caught by ' + ', '.join(det)
     elif m.get('confirmed'):
